@@ -8,6 +8,7 @@ import (
 	"fmt"
 	"go/token"
 	"go/types"
+	"strconv"
 	"strings"
 	"unicode/utf8"
 
@@ -73,7 +74,7 @@ func strBytes(v value) []value {
 		}
 		return r
 	case *Rope:
-		panic(unsupported{"bytes of a formatted message with symbolic parts"})
+		return strBytes(resolveRope(s))
 	}
 	panic(fmt.Sprintf("strBytes %T", v))
 }
@@ -810,6 +811,8 @@ func (i *interpreter) ropeLen(r *Rope) int {
 				panic(unsupported{"len of a formatted message: %d of non-integer"})
 			}
 			n += i.decimalLen(s)
+		case p.verb == "%q" || p.verb == "%c":
+			n += len(strBytes(resolveRope(&Rope{[]ropePart{p}})))
 		default:
 			panic(unsupported{"len of a formatted message with a " + p.verb + " operand"})
 		}
@@ -846,4 +849,116 @@ func (i *interpreter) decimalLen(s *Sym) int {
 		lim *= 10
 	}
 	return extra + 20
+}
+
+// ropeOwner finds the interpreter a formatted message belongs to (through any
+// symbolic operand).
+func ropeOwner(r *Rope) *interpreter {
+	var find func(v value) *interpreter
+	find = func(v value) *interpreter {
+		switch x := v.(type) {
+		case *Sym:
+			return x.t.tab.owner
+		case SymStr:
+			for _, b := range x {
+				if s, ok := b.(*Sym); ok {
+					return s.t.tab.owner
+				}
+			}
+		case *Rope:
+			return ropeOwner(x)
+		}
+		return nil
+	}
+	for _, p := range r.parts {
+		if p.raw != nil {
+			if i := find(p.raw); i != nil {
+				return i
+			}
+		}
+		if p.arg != nil {
+			if i := find(p.arg); i != nil {
+				return i
+			}
+		}
+	}
+	return nil
+}
+
+// resolveRope turns a formatted message into bytes when some operation needs
+// them (sorting, comparing, indexing): %q operands are quoted byte-wise after
+// deciding each symbolic byte's class. Only plain printable ASCII and the two
+// escaped characters are supported; anything else ends the path as unsupported.
+func resolveRope(r *Rope) value {
+	i := ropeOwner(r)
+	var out []value
+	for _, p := range r.parts {
+		switch {
+		case p.verb == "" && p.raw != nil:
+			out = append(out, []value(p.raw)...)
+		case p.verb == "":
+			out = append(out, strBytes(p.lit)...)
+		case p.verb == "%q":
+			switch a := p.arg.(type) {
+			case string:
+				out = append(out, strBytes(strconv.Quote(a))...)
+			case SymStr:
+				if i == nil {
+					panic(unsupported{"resolveRope without interpreter"})
+				}
+				out = append(out, uint8('"'))
+				for _, b := range a {
+					out = append(out, i.quoteByte(b, '"')...)
+				}
+				out = append(out, uint8('"'))
+			case *Sym:
+				if i == nil {
+					panic(unsupported{"resolveRope without interpreter"})
+				}
+				w, _ := kindWidth(a.k)
+				if !i.decide(i.tt.Bin(OpUlt, a.t, i.tt.Const(w, 0x80))) {
+					panic(unsupported{"quoting a symbolic non-ASCII rune"})
+				}
+				out = append(out, uint8('\''))
+				out = append(out, i.quoteByte(mkSym(i.tt.Extract(a.t, 0, 8), types.Uint8), '\'')...)
+				out = append(out, uint8('\''))
+			case *Rope:
+				panic(unsupported{"quoting a formatted message"})
+			default:
+				panic(unsupported{fmt.Sprintf("resolveRope %%q of %T", a)})
+			}
+		case p.verb == "%c":
+			if i == nil {
+				panic(unsupported{"resolveRope without interpreter"})
+			}
+			out = append(out, strBytes(i.runeToString(p.arg))...)
+		default:
+			panic(unsupported{"bytes of a formatted message with a " + p.verb + " operand"})
+		}
+	}
+	return mkStr(out)
+}
+
+// quoteByte renders one byte inside a Go quoted string/rune literal.
+func (i *interpreter) quoteByte(b value, quote byte) []value {
+	if c, ok := b.(uint8); ok {
+		q := strconv.Quote(string(rune(c)))
+		if c >= 0x80 {
+			panic(unsupported{"quoting non-ASCII byte inside partly symbolic text"})
+		}
+		if quote == '\'' {
+			q = strconv.QuoteRune(rune(c))
+		}
+		return strBytes(q[1 : len(q)-1])
+	}
+	tt := i.tt
+	t := b.(*Sym).t
+	c8 := func(v uint64) *Term { return tt.Const(8, v) }
+	if i.decide(tt.Or(tt.Eq(t, c8(uint64(quote))), tt.Eq(t, c8('\\')))) {
+		return []value{uint8('\\'), b}
+	}
+	if i.decide(tt.And(tt.Bin(OpUle, c8(0x20), t), tt.Bin(OpUle, t, c8(0x7e)))) {
+		return []value{b}
+	}
+	panic(unsupported{"quoting a symbolic control or non-ASCII byte (length depends on the value)"})
 }
